@@ -8,6 +8,7 @@ def spec(tier):
     T = 280 if q else 3000
     obs = parts("H.decls", F, "decls", 16, T, path_timeout=250,
                 what="declarations: 8 type keywords x their kind/len selectors (incl. nested parentheses, *n, (len=*), *(*)) x module variable / dummy argument / local x every subset of <=2 (thorough: 3) compatible attributes in BOTH orders (allocatable, pointer, target, save, dimension(...), intent(...), optional, contiguous, public, private, parameter) x entity forms (plain, entity dimension, name*len) x 6 documentation placements: hover restates type+selector, the attribute SET with arguments, name, PARAMETER value and exactly that entity's documentation; neighbours keep theirs")
+    obs += parts("S.hover_struct", F, "hover_struct", 10, 250 if q else 1500, what="TRACED: map_keywords + Variable.get_hover on any sequence of <=3 distinct attributes (symbolic indices) plus optionally one attribute with an argument, with/without kind and PARAMETER value: hover lists exactly those attributes once each with their arguments")
     obs += [XH("H.signature", F, "signature", 150 if q else 600, what="signature help at 20 cursor positions in 7 calls (positional, keyword in any order on required and optional dummies, nested parentheses before the cursor, blanks around '='): dummy arguments in declared order, each with its own declaration and documentation, and the right active parameter")]
     return dict(
         obligations=obs,
